@@ -251,6 +251,9 @@ func (p Parents) Known(n ast.Node, stop ast.Node) []Cond {
 						Split(is.Cond, true, is, &out)
 					}
 				}
+				if sw, ok := sib.(*ast.SwitchStmt); ok && sw.Init == nil {
+					afterSwitch(sw, &out)
+				}
 			}
 		}
 		if x == stop {
@@ -546,4 +549,91 @@ func DeclOfFunc(info *types.Info, files []*ast.File, fn *types.Func) *ast.FuncDe
 		}
 	}
 	return nil
+}
+
+// afterSwitch: what is known after a switch statement some of whose clauses terminate (return / continue /
+// panic): no terminating clause was taken; if the default clause terminates, one of the others was.
+func afterSwitch(sw *ast.SwitchStmt, out *[]Cond) {
+	cond := func(e ast.Expr) ast.Expr {
+		if sw.Tag == nil {
+			return e
+		}
+		return &ast.BinaryExpr{X: sw.Tag, Op: token.EQL, Y: e}
+	}
+	var others ast.Expr // disjunction of the conditions of all non-default clauses
+	defaultTerminates := false
+	hasFallthrough := false
+	for _, st := range sw.Body.List {
+		cc := st.(*ast.CaseClause)
+		for _, b := range cc.Body {
+			if br, ok := b.(*ast.BranchStmt); ok && br.Tok == token.FALLTHROUGH {
+				hasFallthrough = true
+			}
+		}
+	}
+	if hasFallthrough {
+		return
+	}
+	for _, st := range sw.Body.List {
+		cc := st.(*ast.CaseClause)
+		term := clauseLeaves(cc)
+		if cc.List == nil {
+			defaultTerminates = term
+			continue
+		}
+		for _, e := range cc.List {
+			c := cond(e)
+			if others == nil {
+				others = c
+			} else {
+				others = &ast.BinaryExpr{X: others, Op: token.LOR, Y: c}
+			}
+			if term && sw.Tag != nil {
+				// a tagged switch compares the tag with each value independently: the value was not this one
+				Split(c, false, cc, out)
+			}
+		}
+	}
+	if sw.Tag == nil {
+		// tagless: clause k is taken iff its condition holds and all earlier ones do not; a terminating clause not
+		// taken means: an earlier clause was taken, or its condition is false. Only the prefix of terminating
+		// clauses gives a simple fact.
+		for _, st := range sw.Body.List {
+			cc := st.(*ast.CaseClause)
+			if cc.List == nil || !clauseLeaves(cc) {
+				break
+			}
+			for _, e := range cc.List {
+				Split(e, false, cc, out)
+			}
+		}
+	}
+	if defaultTerminates && others != nil {
+		*out = append(*out, Cond{E: others, Pos: true, At: sw})
+	}
+}
+
+// clauseLeaves: control does not continue after the switch when this clause was taken (an unlabelled break
+// leaves the switch only).
+func clauseLeaves(cc *ast.CaseClause) bool {
+	if len(cc.Body) == 0 {
+		return false
+	}
+	last := cc.Body[len(cc.Body)-1]
+	if br, ok := last.(*ast.BranchStmt); ok && br.Tok == token.BREAK && br.Label == nil {
+		return false
+	}
+	leaves := true
+	ast.Inspect(last, func(n ast.Node) bool {
+		switch x := n.(type) {
+		case *ast.FuncLit, *ast.ForStmt, *ast.RangeStmt, *ast.SwitchStmt, *ast.TypeSwitchStmt, *ast.SelectStmt:
+			return false
+		case *ast.BranchStmt:
+			if x.Tok == token.BREAK && x.Label == nil {
+				leaves = false
+			}
+		}
+		return true
+	})
+	return leaves && Terminates(last)
 }
